@@ -78,12 +78,30 @@ class StructureMetaType(MetaType):
             # Shortcut for single char/bytes type
             return type.__call__(cls, *args, **kwargs)
         if not args and not kwargs:
-            obj = type.__call__(cls)
+            obj = type.__call__(cls, **cls._mutable_defaults())
             object.__setattr__(obj, "_values", {})
             object.__setattr__(obj, "_sizes", {})
             return obj
 
+        is_parse = len(args) == 1 and (_is_readable_type(args[0]) or _is_buffer_type(args[0]))
+        if not is_parse and not isinstance(cls, UnionMetaType):
+            # Unions derive the values of all other members from the first given one
+            kwargs = {**cls._mutable_defaults(len(args), kwargs), **kwargs}
+
         return super().__call__(*args, **kwargs)
+
+    def _mutable_defaults(cls, num_args: int = 0, given: dict[str, Any] | None = None) -> dict[str, Any]:
+        """Fresh default values for unspecified fields whose default is a mutable object (arrays, structures).
+
+        The generated ``__init__`` holds one default object per field for the lifetime of the class,
+        which must not end up in more than one instance.
+        """
+        given = given or {}
+        return {
+            field._name: field.type.__default__()
+            for field in cls.__fields__[num_args:]
+            if field._name not in given and issubclass(field.type, (list, Structure))
+        }
 
     def _update_fields(
         cls, fields: list[Field], align: bool = False, classdict: dict[str, Any] | None = None
